@@ -525,7 +525,10 @@ func (st *RtmpStub) Close() {
 	st.Ln.Close()
 	st.mu.Lock()
 	for _, s := range st.Sessions {
-		s.RC.Conn.Close()
+		s.mu.Lock()
+		rc := s.RC
+		s.mu.Unlock()
+		rc.Conn.Close()
 	}
 	st.mu.Unlock()
 }
@@ -576,7 +579,9 @@ func (st *RtmpStub) serve(s *StubSession, b StubBehaviour) {
 	if err != nil {
 		return
 	}
+	s.mu.Lock()
 	s.RC = rc
+	s.mu.Unlock()
 	for {
 		m, err := rc.Read()
 		if err != nil {
